@@ -46,7 +46,8 @@ def build(ctx):
                   'failing_operation': 'symbolic: any single operation may return Err; a failing write may or may not have truncated its target'}
     ctx.outside = ['durability (fsync) and other processes', 'multi-file runs (emitter has no state)', 'a source file whose own extension is tmp or bk',
                    'Path::with_extension itself (F, F.tmp, F.bk assumed to be three distinct paths)']
-    ctx.assumptions = ['file-system model: write(path,data) = create/truncate then fill; rename(from,to) atomic and replaces the target; a failed rename has no effect',
+    ctx.assumptions = ['the bytes on disk are an independent value: original_text is only the source-map view of them (no BOM, LF terminators)',
+                       'file-system model: write(path,data) = create/truncate then fill; rename(from,to) atomic and replaces the target; a failed rename has no effect',
                        'F, F.tmp, F.bk are distinct paths']
     name = eng.find('emit_formatted_file', self_ty='FilesWithBackupEmitter', file='src/emitter/files_with_backup.rs')
 
@@ -66,7 +67,10 @@ def build(ctx):
     Content.declare('partial')
     Content.declare('text', ('txt', orig.e.sort()))
     Content = Content.create()
-    T_orig = Content.text(orig.e)
+    # what is on disk is NOT original_text: the emitter receives the source-map view of the file (BOM stripped,
+    # CRLF normalised); the bytes that must survive are the ones on disk, which only the file system holds
+    disk = z3.Const('bytes_on_disk', orig.e.sort())
+    T_orig = Content.text(disk)
     T_fmt = Content.text(fmt.e)
     c = z3.Int('crash_after_substep')
 
@@ -180,7 +184,7 @@ def build(ctx):
             ctx.prop('p%d/no-op-path-only-when-unchanged' % pi, pc + [ret_ok], orig.e != fmt.e, [], make_replay(ctx, ops, 'nowrite'), meta={'ops': desc})
         # (e) failures propagate
         ctx.prop('p%d/io-error-propagates' % pi, pc, z3.And(z3.Not(all_ok), ret_ok), [], make_replay(ctx, ops, 'propagate'), meta={'ops': desc}, twin=False)
-        if ops and len(ops) >= 3:
+        if ops:
             complete_runs += 1
     ctx.cover('cover/complete-rewrite-path-exists', [z3.BoolVal(complete_runs > 0), z3.Or(success_paths)])
     ctx.cover('cover/crash-between-the-two-renames', [orig.e != fmt.e])
@@ -191,22 +195,30 @@ def build(ctx):
 # The real `rustfmt --backup` is run in a scratch directory under strace, which injects either a fatal signal at the
 # k-th rename (crash point) or an error return (failing operation); then the three paths are inspected.
 
-def run_backup(ctx, inject=None, unchanged=False):
+_seq = [0]
+
+
+def run_backup(ctx, inject=None, unchanged=False, src=None, only_path=None):
     bins = ensure_bins()
-    d = os.path.join(BUILD, 'scratch', 'c20-%d-%d' % (os.getpid(), int(time.time() * 1000) % 100000))
+    _seq[0] += 1
+    d = os.path.join(BUILD, 'scratch', 'c20-%d-%d' % (os.getpid(), _seq[0]))
     os.makedirs(d, exist_ok=True)
-    src = 'fn main() {}\n' if unchanged else 'fn   main( ) { let x=1 ; }\n'
+    if src is None:
+        src = 'fn main() {}\n' if unchanged else 'fn   main( ) { let x=1 ; }\n'
     p = os.path.join(d, 'x.rs')
-    with open(p, 'w') as f:
+    with open(p, 'w', newline='') as f:
         f.write(src)
     cmd = [os.path.join(bins, 'rustfmt'), '--backup', p]
     if inject:
-        cmd = ['strace', '-f', '-o', '/dev/null', '-e', 'trace=rename,renameat,renameat2', '-e', inject] + cmd
+        pre = ['strace', '-f', '-o', '/dev/null']
+        if only_path:
+            pre += ['-P', os.path.join(d, only_path)]
+        cmd = pre + ['-e', 'trace=rename,renameat,renameat2,write,openat', '-e', inject] + cmd
     r = subprocess.run(cmd, capture_output=True, text=True, env=run_env(), timeout=120)
 
     def rd(x):
         try:
-            return open(x).read()
+            return open(x, newline='').read()
         except OSError:
             return None
     res = {'exit': r.returncode, 'F': rd(p), 'F.tmp': rd(os.path.join(d, 'x.tmp')), 'F.bk': rd(os.path.join(d, 'x.bk')), 'original': src,
@@ -230,17 +242,25 @@ def make_replay(ctx, ops, what):
         runs.append(un)
         if un['F.bk'] is not None or un['F.tmp'] is not None or un['F'] != un['original']:
             findings.append('unchanged file touched: %r' % (un,))
-        for k in (1, 2, 3):
-            for mode in ('signal=KILL', 'error=EIO'):
-                inj = 'inject=rename,renameat,renameat2:%s:when=%d' % (mode, k)
-                x = run_backup(ctx, inject=inj)
-                runs.append(x)
-                if not (x['F'] == orig or x['F.bk'] == orig):
-                    findings.append('%s: original lost: F=%r bk=%r' % (inj, x['F'], x['F.bk']))
-                if x['F'] is not None and x['F'] not in (orig, formatted):
-                    findings.append('%s: partial file %r' % (inj, x['F']))
-                if mode.startswith('error') and x['exit'] == 0 and (x['F'] != formatted or x['F.bk'] != orig):
-                    findings.append('%s: error not propagated (exit 0)' % inj)
+        injections = [('inject=rename,renameat,renameat2:%s:when=%d' % (mode, k), None) for k in (1, 2, 3) for mode in ('signal=KILL', 'error=EIO')]
+        # faults on the data path of each of the three files (strace -P restricts tracing to that path)
+        injections += [('inject=write:%s:when=1' % mode, pth) for pth in ('x.rs', 'x.tmp', 'x.bk') for mode in ('signal=KILL', 'error=EIO')]
+        for inj, pth in injections:
+            x = run_backup(ctx, inject=inj, only_path=pth)
+            runs.append(x)
+            tag = inj + (' on ' + pth if pth else '')
+            if not (x['F'] == orig or x['F.bk'] == orig):
+                findings.append('%s: original lost: F=%r bk=%r' % (tag, x['F'], x['F.bk']))
+            if x['F'] is not None and x['F'] not in (orig, formatted):
+                findings.append('%s: partial file %r' % (tag, x['F']))
+            if 'error' in inj and x['exit'] == 0 and (x['F'] != formatted or x['F.bk'] != orig):
+                findings.append('%s: error not propagated (exit 0)' % tag)
+        # the bytes on disk are not the source-map text: BOM and CRLF originals
+        for nm, src in (('crlf', 'fn   main( ) { let x=1 ; }\r\n'), ('bom', '\ufefffn   main( ) { let x=1 ; }\n')):
+            x = run_backup(ctx, src=src)
+            runs.append(x)
+            if not (x['F'] == src or x['F.bk'] == src):
+                findings.append('%s original: bytes on disk lost after a complete run: bk=%r' % (nm, x['F.bk']))
         return {'reproduced': bool(findings), 'detail': findings, 'runs': runs[:3]}
     return replay
 
